@@ -384,6 +384,7 @@ def main():
     ap.add_argument("--replay")
     ap.add_argument("--seed", type=int, default=int(os.environ.get("VERIF_SEED", "1")))
     ap.add_argument("--skip-proof", action="store_true", help="(development only) skip the Lean build/audit")
+    ap.add_argument("--force-escalate", action="store_true", help="run the correspondence step with the thorough generators (used by the failing-input search)")
     a = ap.parse_args()
     pid, tier, seed = a.pid, a.tier, a.seed
     if tier not in ("quick", "thorough"):
@@ -407,9 +408,27 @@ def main():
     if hasattr(mod, "pre"):
         extra_problems += mod.pre(ctx) or []
 
+    # 2b. source drift (gen/srcmap.py): has any function this property's correspondence run executes changed since the
+    # model was last reconciled with /repo (srcmap/fingerprint.json)?  A change is not an alarm (a rewrite can be harmless);
+    # it makes the quick tier *search harder*: the correspondence step below runs with the thorough generators, sweeps and
+    # bins (`gtier`), while the proof step keeps the requested tier.
+    gtier = tier
+    drift = {"relevant": False, "changed": [], "all_changed": []}
+    if not a.replay and os.environ.get("VERIF_NO_ESCALATE") != "1":
+        try:
+            from gen import srcmap
+            drift = srcmap.drift_for(pid)
+        except Exception as e:
+            drift = {"relevant": True, "changed": ["<source map failed: %r>" % (e,)], "all_changed": []}
+    if (drift["relevant"] or a.force_escalate) and tier == "quick":
+        gtier = "thorough"
+        if drift["relevant"]:
+            print(f"NOTE: /repo/src differs from the source the model was reconciled with in code this property's run executes "
+                  f"({len(drift['changed'])} items, e.g. {', '.join(drift['changed'][:4])}); escalating the correspondence run to the thorough generators")
+
     # 3. harness
     from gen import widthsweep as _wsweep
-    _wsweep.set_tier(tier)
+    _wsweep.set_tier(gtier)
     sweeps = [] if a.replay else SWEEPS.get(pid, [])
     multi = getattr(mod, "HARNESS_BINS", None)
     if sweeps or a.replay:
@@ -420,7 +439,7 @@ def main():
         sweep_lines = set()
         u8cfg = re.compile(r"\S+ [ui]8x\d+ ")
         mod.ROUTE = lambda l, _i=inner: (((l in sweep_lines) or _wsweep.is_sweep(l) or (a.replay and u8cfg.match(l + " "))) and _wsweep.sweep_bin(l)) or _i(l)
-    if tier == "thorough" and getattr(mod, "HARNESS_BINS_THOROUGH", None):
+    if gtier == "thorough" and getattr(mod, "HARNESS_BINS_THOROUGH", None):
         # extra (slow to build) bins used by the thorough tier only, e.g. the all-widths sweep
         multi = list(multi or [binname]) + list(mod.HARNESS_BINS_THOROUGH)
         if not hasattr(mod, "ROUTE"):
@@ -460,7 +479,7 @@ def main():
                     if l and not l.startswith("#"):
                         cases.append((l, "corpus"))
         ctx["line_offset"] = len(cases)
-        cases += list(mod.gen(rng, tier))
+        cases += list(mod.gen(rng, gtier))
         # all-widths sweep of this property's width-sensitive operations (every N = 1..1024 of the u8-digit types)
         srng = random.Random(seed * 7919 + int(pid[1:]))
         for name in sweeps:
@@ -612,6 +631,21 @@ def main():
         print(f"VIOLATION property={pid} replay={replay_path}")
         status = 1
     elif divergences or broken:
+        # The property is no longer *shown* to hold.  Before saying so, search for an input on which it actually fails:
+        # a second correspondence run with the thorough generators and another seed (development mode: its evidence goes
+        # to evidence/dev/).  If that finds one, it becomes the replay.
+        found = None
+        if gtier == "quick" and not a.replay and bins is not None and os.environ.get("VERIF_NO_ESCALATE") != "1":
+            rc2, out2, err2 = run([sys.executable, os.path.abspath(__file__), pid, "--tier", "quick", "--seed", str(seed + 1),
+                                   "--skip-proof", "--force-escalate"], cwd=ROOT, timeout=7200)
+            mm = re.search(r"^VIOLATION property=%s replay=(\S+)\s*$" % pid, out2, re.M)
+            if mm:
+                found = mm.group(1)
+        if found:
+            print(f"VIOLATION property={pid} replay={found}")
+            replay_path = found
+            status = 1
+    if status == 0 and not violations and (divergences or broken):
         replay_path = os.path.join(REPLAYS, f"{pid}-{seed}.json")
         json.dump({"property": pid, "kind": "property no longer shown to hold: proof obligation or model/code correspondence broken; no input violating the specification was found",
                    "broken_obligations": broken[:10], "cases": divergences[:25], "total_divergences": len(divergences)},
@@ -638,6 +672,9 @@ def main():
             "width_sweep": {"requests_prefiltered_by_exact_python_value": prefilter["n"], "of_those_sent_to_the_lean_driver_because_the_crate_differed": prefilter["to_driver"],
                             "note": "all-widths sweep (every N = 1..1024 of the u8-digit types): requests whose crate answer equals the exact Python value are accepted without evaluating the Lean model; N <= 40 and every 64th N always go through the Lean driver"},
             "known_findings_hit": {k: v["n"] for k, v in known_hits.items()},
+            "source_drift": {"relevant_to_this_property": drift["relevant"], "changed": drift["changed"][:40],
+                             "escalated_to_thorough_generators": gtier != tier,
+                             "note": "gen/srcmap.py: normalised-text hashes of every fn of /repo/src against srcmap/fingerprint.json, restricted to the functions this property's quick run executes (srcmap/deps.json, measured by coverage)"},
             "configs": sorted(set(l.split(" ")[1] for l in lines)),
             "ops_not_modelled": unmodelled,
             "exhaustive": False,
